@@ -46,6 +46,18 @@ def handle_program(rnd):
     return ["cont", "tuple", [step(fast, step(slow)), step(["call", "inc", [["val", 7]], {}, {}])]], shape
 
 
+def has_unknown_executor_twin(ast):
+    """A call whose executor option names no configured executor, and an equal call (task, arguments) without it."""
+    bad, good = set(), set()
+
+    def fn(c):
+        key = repr((c[1], c[2], c[3]))
+        (bad if c[4].get("executor") == "no_such_executor" else good).add(key)
+        return c
+    wf.map_calls(ast, fn)
+    return bool(bad & good)
+
+
 def with_r1(ast):
     def fn(c):
         c[4] = dict(c[4], limits=["r1"])
@@ -65,7 +77,8 @@ def observe(s):
 
 
 def first_diff(a, b):
-    for k in ("result", "call_hashes", "arguments", "handle_hashes", "edges"):
+    keys = ("result",) if (a.get("had_failure") or b.get("had_failure")) else ("result", "call_hashes", "arguments", "handle_hashes", "edges")
+    for k in keys:
         if a[k] != b[k]:
             if isinstance(a[k], list):
                 sa, sb = set(map(repr, a[k])), set(map(repr, b[k]))
@@ -88,6 +101,12 @@ def run_program(ctx, rnd, ast, is_handle, shape, n_sched, where):
                 continue
             v = observe(s)
             v["result"] = engine.outcome_key(out)
+            # When some job fails, the work that is still in flight is abandoned as soon as the failure decides the
+            # outcome (or is caught): which sibling calls got recorded by then legitimately depends on timing.  The
+            # call graph is therefore compared only between runs in which no job failed; results are always compared.
+            v["had_failure"] = any(isinstance(i.get("settled"), tuple) and i["settled"][:1] == ("err",) for i in c.jobs.values())
+            if v["had_failure"]:
+                ctx.count("runs_with_a_failed_job")
             views.append((cap, name, v, c.waited_on_limits))
             sigs.add(c.signature())
             njobs = max(njobs, len(c.submits))
@@ -121,6 +140,9 @@ def run_program(ctx, rnd, ast, is_handle, shape, n_sched, where):
         mech = "call-graph-depends-on-timing"
     if d[0] == "result" and base[2]["result"][0] != dis_any[2]["result"][0]:
         mech = "result-kind-depends-on-timing"
+    if d[0] == "result" and has_unknown_executor_twin(ast) and any(
+            "Unknown executor" in repr(v[2]["result"]) for v in (base, dis_any)):
+        mech = "unknown-executor-call-shares-identity-with-valid-twin"
     ctx.violation(mech, "runs (cap=%s, %s) and (cap=%s, %s) differ in %s: %r vs %r" % (
         base[0], base[1], dis_any[0], dis_any[1], d[0], d[1], d[2]), wit)
 
@@ -167,6 +189,7 @@ def replay(ctx, witness):
         out, c, s = engine.run_controlled(wf.build(witness["ast"]), engine.chooser_from_name(name), limits={"r1": cap})
         v = observe(s)
         v["result"] = engine.outcome_key(out)
+        v["had_failure"] = any(isinstance(i.get("settled"), tuple) and i["settled"][:1] == ("err",) for i in c.jobs.values())
         views.append(v)
         print("cap", cap, "schedule", name, "->", v["result"], len(v["call_hashes"]), "call nodes", v["handle_hashes"])
     d = first_diff(views[0], views[1])
